@@ -30,7 +30,8 @@ LEVEL_TEXT = (
     "corruptions of signed bytes / image data must be reported; configurations predicted to collide must be refused"
 )
 RULE = (
-    "case = (family, revision, target memory, forced container version, 1..max containers each with srk_set none/oem, SRK table of four "
+    "part db_tuples enumerates every (device, revision) x target memory x container version of the device database once with a fixed two-container "
+    "shape; part images: case = (family, revision, target memory, forced container version, 1..max containers each with srk_set none/oem, SRK table of four "
     "P-256/384/521 or RSA-2048/3072/4096 keys in PEM/DER/X.509 form, used_srk_id, revoke mask, fuse/sw version, GDET flag, optional "
     "certificate (v2 containers) and DEK blob, 1..max images with size class, explicit/automatic/colliding offsets, gaps, size alignment, "
     "core id, image type, hash type, encryption, boot flags, meta data, addresses; three tamper positions); non-trivial = >= 2 images or "
